@@ -5,7 +5,10 @@ package main
 import (
 	"flag"
 	"fmt"
+	"io"
 	"os"
+
+	"k8s.io/klog/v2"
 
 	"verifharness/eng"
 )
@@ -19,6 +22,12 @@ func main() {
 	only := flag.Int("case", -1, "run only this case index")
 	scenario := flag.String("scenario", "", "run only this corpus scenario")
 	flag.Parse()
+	kfs := flag.NewFlagSet("klog", flag.ContinueOnError)
+	klog.InitFlags(kfs)
+	_ = kfs.Set("logtostderr", "false")
+	_ = kfs.Set("alsologtostderr", "false")
+	_ = kfs.Set("stderrthreshold", "FATAL")
+	klog.SetOutput(io.Discard)
 	e, ok := eng.Engines[*engine]
 	if !ok {
 		fmt.Fprintf(os.Stderr, "unknown engine %q\n", *engine)
